@@ -69,6 +69,9 @@ def run_compose(cfg: CCfg, c: Ctx) -> Any:
     if cfg.features == "act":
         feats = [f for f in feats if f and f[0] in ("act", "actidx")]
         c.assume(bool(feats))
+    elif cfg.features == "kw":
+        feats = [f for f in feats if f and f[0] in ("kw", "idx")]
+        c.assume(bool(feats))
     feat = feats[c.choose(len(feats), "feature")]
     idx_use: Optional[Tuple[str, str]] = (feat[1], feat[2]) if feat and feat[0] == "idx" else None
     kw_use = {l: bool(feat and feat[0] == "kw" and feat[1] == l) for l in labels}
